@@ -345,8 +345,10 @@ func (t *timeDependentDurationExpressionImpl) SetExpression(
 			element = element.next
 		}
 
-		if element.expression != t.defaultExpression && element.start <
-			newElement.end {
+		// The new expression overlaps when it starts inside an existing one, and
+		// when it starts in a gap that ends before the new expression does.
+		if (element.expression != t.defaultExpression && element.start < newElement.end) ||
+			(element.expression == t.defaultExpression && element.end < newElement.end) {
 			return nmerror.NewArgumentMismatchError(fmt.Errorf(
 				"new time dependent expression %s [%v, %v] overlaps with existing"+
 					" expression %s [%v, %v]",
